@@ -77,6 +77,194 @@ def optNz (o : Option (List Nat)) : String :=
     | some l => limbsHex l
     | none => "none"
 
+/-- formatting kinds the wrappers `NonZero<T>` / `Odd<T>` forward (no `Debug`, which is derived): (L1, L0) -/
+def wrapFmtKind (boxed : Bool) (kind : String) (l : List Nat) : Option (List Nat × List Nat) :=
+  let k := 16 * l.length
+  let v := val l
+  let hx := fun (upper alt : Bool) => if boxed then wrapBoxedFmtHex upper alt l else wrapFmtHex upper alt l
+  let bn := fun (alt : Bool) => if boxed then wrapBoxedFmtBin alt l else wrapFmtBin alt l
+  match kind with
+  | "x" => some (hx false false, specHexText false k v)
+  | "X" => some (hx true false, specHexText true k v)
+  | "d" => some (hx true false, specHexText true k v)
+  | "#x" => some (hx false true, [48, 120] ++ specHexText false k v)
+  | "#X" => some (hx true true, [48, 120] ++ specHexText true k v)
+  | "b" => some (bn false, specBinText (64 * l.length) v)
+  | "#b" => some (bn true, [48, 98] ++ specBinText (64 * l.length) v)
+  | _ => none
+
+/-- a wrapper line: `none` when the value is not admissible for the wrapper, else the forwarded formatting -/
+def wrapFmtLine (boxed odd : Bool) (kind : String) (l : List Nat) : Option String :=
+  let ok := if odd then val l % 2 = 1 else val l ≠ 0
+  match wrapFmtKind boxed kind l with
+  | none => badArgs
+  | some (a, b) => if ok then both (bytesToTok a) (bytesToTok b) else both "none" "none"
+
+/-- L0 of the `Uint` serde frame: `u64` LE length `8n`, then `8n` LE bytes; trailing bytes ignored -/
+def specFrameDe (n : Nat) (b : List Nat) : Option Nat :=
+  if b.length < 8 + 8 * n ∨ beVal (b.take 8).reverse ≠ 8 * n then none
+  else some (beVal ((b.drop 8).take (8 * n)).reverse)
+
+def specFrameSer (n v : Nat) : List Nat := specLeBytes 8 (8 * n) ++ specLeBytes (8 * n) v
+
+def optSerde : Option Nat → String
+  | some v => natToHex v
+  | none => "err:serde"
+
+def decodeErrorOf : String → Option DecodeError
+  | "Empty" => some .Empty | "InvalidDigit" => some .InvalidDigit
+  | "InputSize" => some .InputSize | "Precision" => some .Precision
+  | _ => none
+
+/-- coverage-round operations (serde of the wrappers, word views, wrapper formatting, error texts) -/
+def coverageOps (op : String) (args : List String) : Option String :=
+  match op, args with
+  -- ---- Limb
+  | "c16.l.serde_ser", [w] =>
+    match hexToNat? w with
+    | some w => if w < B then both (bytesToTok (limbSerialize w)) (bytesToTok (specLeBytes 8 w)) else badArgs
+    | _ => badArgs
+  | "c16.l.serde_de", [b] =>
+    match tokToBytes? b with
+    | some b => both (optSerde (limbDeserialize b)) (if b.length < 8 then "err:serde" else natToHex (beVal (b.take 8).reverse))
+    | _ => badArgs
+  | "c16.l.to_prim", [w] =>
+    match hexToNat? w with
+    | some w => if w < B then both s!"{natToHex (limbToWord w)} {natToHex (limbToWide w)}" s!"{natToHex w} {natToHex w}" else badArgs
+    | _ => badArgs
+  | "c16.nz.l.fmt", [kind, w] =>
+    match hexToNat? w with
+    | some w => if w < B then wrapFmtLine false false kind [w] else badArgs
+    | _ => badArgs
+  | "c16.odd.l.fmt", [kind] => wrapFmtLine false true kind [1]      -- `Odd::<Limb>::default()` holds `Limb::ONE`
+  -- ---- Wrapping<Uint>, Checked<Uint>
+  | "c16.w.serde_ser", [n, v] =>
+    match n.toNat?, hexToNat? v with
+    | some n, some v => both (bytesToTok (wrappingSerialize (toLimbs n v))) (bytesToTok (specFrameSer n v))
+    | _, _ => badArgs
+  | "c16.w.serde_de", [n, b] =>
+    match n.toNat?, tokToBytes? b with
+    | some n, some b => both (match wrappingDeserialize n b with | some l => limbsHex l | none => "err:serde") (optSerde (specFrameDe n b))
+    | _, _ => badArgs
+  | "c16.ck.serde_ser", [n, sm, v] =>
+    match n.toNat?, hexToNat? v with
+    | some n, some v =>
+      if sm = "1" then both (bytesToTok (checkedSerialize (some (toLimbs n v)))) (bytesToTok (1 :: specFrameSer n v))
+      else if sm = "0" then both (bytesToTok (checkedSerialize none)) (bytesToTok [0])
+      else badArgs
+    | _, _ => badArgs
+  | "c16.ck.serde_de", [n, b] =>
+    match n.toNat?, tokToBytes? b with
+    | some n, some b =>
+      let l1 := match checkedDeserialize n b with
+        | none => "err:serde"
+        | some none => "none"
+        | some (some l) => "some " ++ limbsHex l
+      let l0 := match b with
+        | [] => "err:serde"
+        | t :: r =>
+          if t = 0 then "none"
+          else if t = 1 then (match specFrameDe n r with | some v => "some " ++ natToHex v | none => "err:serde")
+          else "err:serde"
+      both l1 l0
+    | _, _ => badArgs
+  -- ---- ConstMontyForm (the line carries the modulus; the harness compares it with its compile-time constant)
+  | "c16.cm.serde_ser", [n, m, v] =>
+    match n.toNat?, hexToNat? m, hexToNat? v with
+    | some n, some _, some v => both (bytesToTok (cmSerialize (toLimbs n v))) (bytesToTok (specFrameSer n v))
+    | _, _, _ => badArgs
+  | "c16.cm.serde_de", [n, m, b] =>
+    match n.toNat?, hexToNat? m, tokToBytes? b with
+    | some n, some m, some b =>
+      both (match cmDeserialize (toLimbs n m) b with | some l => limbsHex l | none => "err:serde")
+        (match specFrameDe n b with | some v => if v < m then natToHex v else "err:serde" | none => "err:serde")
+    | _, _, _ => badArgs
+  | "c16.cm.roundtrip", [n, m, v] =>
+    match n.toNat?, hexToNat? m, hexToNat? v with
+    | some n, some m, some v =>
+      -- Montgomery representation of `v` (value level; the conversion and `retrieve` are C08's)
+      let mf := toLimbs n (v % B ^ n * B ^ n % m)
+      both (match cmDeserialize (toLimbs n m) (cmSerialize mf) with
+            | some a => if a = mf then "ok " ++ natToHex (v % B ^ n % m) else "forms-differ roundtrip"
+            | none => "err:serde")
+        ("ok " ++ natToHex (v % B ^ n % m))
+    | _, _, _ => badArgs
+  -- ---- word / limb views
+  | "c16.i.words", [n, v] =>
+    match n.toNat?, hexToNat? v with
+    | some n, some v =>
+      both (wordsTok (toWords (fromWords (toLimbs n v)))) (wordsTok ((List.range n).map fun i => v / B ^ i % B))
+    | _, _ => badArgs
+  | "c16.u.words_mut", [n, v, i, w] | "c16.i.words_mut", [n, v, i, w] =>
+    match n.toNat?, hexToNat? v, i.toNat?, hexToNat? w with
+    | some n, some v, some i, some w =>
+      if i ≥ n ∨ w ≥ B ∨ v ≥ B ^ n then badArgs else
+      both (limbsHex (setWord (toLimbs n v) i w)) (natToHex (v - v / B ^ i % B * B ^ i + w * B ^ i))
+    | _, _, _, _ => badArgs
+  | "c16.b.words_mut", [n, v, i, w] =>
+    match n.toNat?, hexToNat? v, i.toNat?, hexToNat? w with
+    | some n, some v, some i, some w =>
+      if i ≥ max 1 n ∨ w ≥ B ∨ v ≥ B ^ n then badArgs else
+      both (limbsHexLen (setWord (boxedOfVec (fromWords (toLimbs n v))) i w))
+        s!"{max 1 n}:{natToHex (v - v / B ^ i % B * B ^ i + w * B ^ i)}"
+    | _, _, _, _ => badArgs
+  | "c16.b.from_odd", [n, v] =>
+    match n.toNat?, hexToNat? v with
+    | some n, some v =>
+      if v ≥ B ^ n then badArgs else
+      if v % 2 = 0 then both "none" "none" else
+      both (limbsHexLen (boxedFromOdd (toLimbs n v))) s!"{max 1 n}:{natToHex v}"
+    | _, _ => badArgs
+  -- ---- formatting forwarded by the wrappers
+  | "c16.nz.fmt", [n, kind, v] | "c16.nz.i.fmt", [n, kind, v] =>
+    match n.toNat?, hexToNat? v with
+    | some n, some v => wrapFmtLine false false kind (toLimbs n v)
+    | _, _ => badArgs
+  | "c16.odd.fmt", [n, kind, v] | "c16.odd.i.fmt", [n, kind, v] =>
+    match n.toNat?, hexToNat? v with
+    | some n, some v => wrapFmtLine false true kind (toLimbs n v)
+    | _, _ => badArgs
+  | "c16.nz.b.fmt", [n, kind, v] =>
+    match n.toNat?, hexToNat? v with
+    | some n, some v => wrapFmtLine true false kind (boxedOfVec (toLimbs n v))
+    | _, _ => badArgs
+  | "c16.odd.b.fmt", [n, kind, v] =>
+    match n.toNat?, hexToNat? v with
+    | some n, some v => wrapFmtLine true true kind (boxedOfVec (toLimbs n v))
+    | _, _ => badArgs
+  | "c16.nz.octal", [kind, v] =>
+    match hexToNat? v with
+    | some v =>
+      if v ≥ B ∨ (kind ≠ "o" ∧ kind ≠ "#o") then badArgs else
+      if v = 0 then both "none" "none" else
+      both (bytesToTok (fmtOctal (kind = "#o") v)) (bytesToTok ((if kind = "#o" then [48, 111] else []) ++ specOctText v))
+    | _ => badArgs
+  | "c16.odd.octal", [kind] =>
+    if kind ≠ "o" ∧ kind ≠ "#o" then badArgs else
+    both (bytesToTok (fmtOctal (kind = "#o") 1)) (bytesToTok ((if kind = "#o" then [48, 111] else []) ++ specOctText 1))
+  -- ---- error texts (L1 only: the property does not fix the wording; the line pins the documented messages)
+  | "c16.err.decode", [k] =>
+    match decodeErrorOf k with
+    | some e => some (bytesToTok (decodeErrorText e))
+    | none => badArgs
+  | "c16.err.boxed_decode", [bp, b] =>
+    match bp.toNat?, tokToBytes? b with
+    | some bp, some b =>
+      both (match boxedFromBeSlice b bp with | .ok _ => "ok" | .error e => bytesToTok (decodeErrorText e))
+        (match specBoxedDecode b.length bp (beVal b) with | .ok _ => "ok" | .error e => bytesToTok (decodeErrorText e))
+    | _, _ => badArgs
+  | "c16.err.randbits", ["rand_core", t] =>
+    match tokToBytes? t with
+    | some t => (randomBitsErrorText "rand_core" t 0 0).map bytesToTok
+    | none => badArgs
+  | "c16.err.randbits", [variant, x, y] =>
+    match x.toNat?, y.toNat? with
+    | some x, some y => match randomBitsErrorText variant [] x y with
+      | some t => some (bytesToTok t)
+      | none => badArgs
+    | _, _ => badArgs
+  | _, _ => none
+
 end D16
 end CB.Encoding
 
@@ -347,6 +535,6 @@ def dispatchC16 : Dispatch := fun op args =>
       -- `BoxedUint::from_words` pads an empty sequence to one limb since /repo fix a47b355
       both (wordsTok (toWords (boxedOfVec (fromWords (toLimbs n v))))) (wordsTok ((List.range (max 1 n)).map fun i => v / B ^ i % B))
     | _, _ => badArgs
-  | _, _ => none
+  | _, _ => coverageOps op args
 
 end CB
